@@ -16,7 +16,8 @@ Section PyVal.
   Definition pv_unicode (s : bytes) : option pv := if uni_ok s then Some (PUni s) else None.
   (* text written with a Python-2 str opcode *)
   Definition pv_bytestring (s : bytes) : option pv :=
-    if (1 <=? e_proto c)%Z && (Nlen s <? 2147483648) then Some (PStr s) else None.
+    if (1 <=? e_proto c)%Z then (if Nlen s <? 2147483648 then Some (PStr s) else None)
+    else Some (PStr s).                      (* protocol 0: S + pyquote, any length *)
   (* Go string: unicode under StrictUnicode or protocol >= 3, Python-2 str otherwise *)
   Definition pv_string (s : bytes) : option pv :=
     if e_strict c || (3 <=? e_proto c)%Z then pv_unicode s else pv_bytestring s.
